@@ -82,12 +82,13 @@ pub fn gen_spec_yaml(r: &mut Prng, depth: usize, indent: usize, out: &mut String
             }
         }
         1 => {
-            let lo = r.range(-20, 20);
-            let hi = lo + 1 + r.range(0, 30);
+            let big = r.chance(1, 4);
+            let lo = if big { *r.pick(&[-9007199254740993i64, 0, -999999999999999999, i64::MIN + 1, 9007199254740000]) } else { r.range(-20, 20) };
+            let hi = if big { *r.pick(&[9007199254740993i64, 999999999999999999, i64::MAX, 9007199254740995]) } else { lo + 1 + r.range(0, 30) };
             let form = r.below(4);
             let init = match form {
-                0 => r.range(-1000, 1000),
-                _ => r.range(lo, hi),
+                0 => if big { *r.pick(&[9007199254740993i64, -9007199254740993, i64::MAX, i64::MIN, 1234567890123456789]) } else { r.range(-1000, 1000) },
+                _ => if big { *r.pick(&[lo, hi, hi - 1, lo + 1, lo / 2 + hi / 2]) } else { r.range(lo, hi) },
             };
             out.push_str(&format!("{}type: int\n{}init: {}\n{}scale: {}\n", pad, pad, init, pad, yf(*r.pick(&[1.0, 2.5, 100.0, 0.3]))));
             if form == 1 || form == 2 {
